@@ -75,14 +75,8 @@ func (fg *FnGen) preserveAcrossHavoc(st, st2 *State, reach *Term, li *loopInfo) 
 		if li != nil && (sc.src == nil || storedRoots[sc.src]) {
 			continue
 		}
-		if stt, ok := sc.ty.Underlying().(*types.Struct); ok {
-			for i := 0; i < stt.NumFields(); i++ {
-				if _, isStruct := stt.Field(i).Type().Underlying().(*types.Struct); isStruct {
-					continue
-				}
-				name, hs := fg.fieldVar(sc.ty, stt, i)
-				fg.assume(Eq(Select(fg.lookup(st2, name, hs), sc.ref), Select(fg.lookup(st, name, hs), sc.ref)))
-			}
+		if _, ok := sc.ty.Underlying().(*types.Struct); ok {
+			fg.preserveStruct(st, st2, nil, sc.ref, sc.ty, 0)
 			continue
 		}
 		name, hs := fg.cellVar(sc.ty)
@@ -92,15 +86,32 @@ func (fg *FnGen) preserveAcrossHavoc(st, st2 *State, reach *Term, li *loopInfo) 
 		return
 	}
 	for _, sr := range fg.stableRefs() {
-		stt, nt, _ := isStructPtr(sr.ty)
-		for i := 0; i < stt.NumFields(); i++ {
-			if _, isStruct := stt.Field(i).Type().Underlying().(*types.Struct); isStruct {
-				continue
-			}
-			name, hs := fg.fieldVar(nt, stt, i)
-			fg.assumeIf(reach, Eq(Select(fg.lookup(st2, name, hs), sr.ref), Select(fg.lookup(st, name, hs), sr.ref)))
-		}
+		_, nt, _ := isStructPtr(sr.ty)
+		fg.preserveStruct(st, st2, reach, sr.ref, nt, 0)
 		fg.g.useTrusted("callees do not modify the message a request parameter points to (option stable " + sr.name + " in " + fg.name + ")")
+	}
+}
+
+// preserveStruct: every field of the object at ref — the fields of its embedded (by-value) structs included — has the
+// same value in st2 as in st.
+func (fg *FnGen) preserveStruct(st, st2 *State, reach *Term, ref *Term, ty types.Type, depth int) {
+	stt, ok := ty.Underlying().(*types.Struct)
+	if !ok || depth > 4 {
+		return
+	}
+	for i := 0; i < stt.NumFields(); i++ {
+		ft := stt.Field(i).Type()
+		name, hs := fg.fieldVar(ty, stt, i)
+		if _, isStruct := ft.Underlying().(*types.Struct); isStruct {
+			fg.preserveStruct(st, st2, reach, fg.subRef(name, ref), ft, depth+1)
+			continue
+		}
+		eq := Eq(Select(fg.lookup(st2, name, hs), ref), Select(fg.lookup(st, name, hs), ref))
+		if reach != nil {
+			fg.assumeIf(reach, eq)
+		} else {
+			fg.assume(eq)
+		}
 	}
 }
 
